@@ -68,8 +68,42 @@ def handleUsageErr (args : List String) : String :=
       | _ => "bad-cmd"
   | _ => "bad-op"
 
+/-- `UT <UI …> <flatten 0|1> <n> <UT …>…` -/
+def decUTree : Nat → Dec Usage.UTree
+  | 0 => failure
+  | fuel+1 => do
+    let _ ← tok  -- "UT"
+    let u ← decUInfo
+    let fl ← nat
+    let subs ← listOf (decUTree fuel)
+    pure (.mk u (fl == 1) subs)
+
+/-- `usaget <depth> CMD … <UT tree>` → `U <usage line> [S <usage line>]…` for the built root and its user-defined
+subcommands, `flatten_help` included (one line per visible subcommand, recursively) -/
+def handleUsageTree (args : List String) : String :=
+  match args with
+  | d :: rest =>
+    match d.toNat? with
+    | none => "bad-op"
+    | some depth =>
+      match (do let c ← decCmd (depth + 3); let t ← decUTree (depth + 3); pure (c, t) : Dec _).run rest with
+      | some ((cmd, t), _) =>
+        let b := Build.buildAll (depth + 2) cmd
+        let u := t.info
+        let bin := u.usageName
+        let root := "U " ++ fmtOB (Usage.renderUsageTree (depth + 4) b t bin)
+        let subOut := (Usage.pairSubs b.subs t.subs).filterMap fun (s, st?) =>
+          st?.map fun st =>
+            match Usage.subUsageName b u bin s with
+            | some un => " S " ++ fmtOB (Usage.renderUsageTree (depth + 4) s (.mk { st.info with usageName := un } st.flatten st.subs) (bin ++ [32] ++ s.name))
+            | none => " S PANIC"
+        root ++ String.join subOut
+      | none => "bad-cmd"
+  | _ => "bad-op"
+
 def handleL10 (cmd : String) (args : List String) : Option String :=
-  if cmd == "usage" then some (handleUsage args)
+  if cmd == "usaget" then some (handleUsageTree args)
+  else if cmd == "usage" then some (handleUsage args)
   else if cmd == "usageerr" then some (handleUsageErr args) else none
 
 end Clap.Driver
